@@ -11,6 +11,7 @@ except ImportError:  # pragma: no cover
     import sre_parse  # type: ignore
 
 from sa import formats, relang as rl, shapes
+from sa import shapes
 from sa.model import AnalysisError, const_str, unparse, walk_no_nested
 
 TECHNIQUE = "table agreement: bumpver's tag map vs. the vendored comparator's letter normalisation (extracted from its if-chain and regex groups); language tests on formatter images"
@@ -38,9 +39,12 @@ def letter_normalisation(ctx) -> T.Dict[str, str]:
         if not isinstance(n, ast.If):
             continue
         t = n.test
-        if not (isinstance(t, ast.Compare) and len(t.ops) == 1 and unparse(t.left) == p):
+        # the spelling is held by the parameter itself or by a local derived from it (`x = letter.lower()`)
+        holders = {p} | {unparse(tg) for _s, tg, v in shapes.iter_assigns(fn.node)
+                         if isinstance(tg, ast.Name) and isinstance(v, ast.Call) and isinstance(v.func, ast.Attribute) and v.func.attr in ("lower", "casefold") and unparse(v.func.value) == p}
+        if not (isinstance(t, ast.Compare) and len(t.ops) == 1 and unparse(t.left) in holders):
             continue
-        if not (len(n.body) == 1 and isinstance(n.body[0], ast.Assign) and unparse(n.body[0].targets[0]) == p and isinstance(n.body[0].value, ast.Constant)):
+        if not (len(n.body) == 1 and isinstance(n.body[0], ast.Assign) and isinstance(n.body[0].targets[0], ast.Name) and isinstance(n.body[0].value, ast.Constant)):
             continue
         dst = n.body[0].value.value
         if isinstance(t.ops[0], ast.Eq) and isinstance(t.comparators[0], ast.Constant):
